@@ -20,6 +20,7 @@ type World struct {
 	Fset *token.FileSet
 
 	mu      sync.Mutex
+	fnCache sync.Map
 	fnInfos map[*ssa.Function]*fnInfo
 	methods map[methKey]*ssa.Function
 
@@ -38,8 +39,11 @@ type methKey struct {
 }
 
 type fnInfo struct {
-	idx  map[ssa.Value]int
-	nreg int
+	idx    map[ssa.Value]int
+	nreg   int
+	name   string
+	ext    ExtFn // external model or harness intrinsic (nil = interpret)
+	isInit bool
 }
 
 // RecordKind classifies branch records.
@@ -140,6 +144,7 @@ type Interp struct {
 	side     map[string]Value
 	onceDone map[*Value]bool
 	inInit   int
+	initForce bool
 	initDone map[*ssa.Package]bool
 	Notes    map[string]int // imprecision notes (stub names used etc.)
 	mapOrd   int
@@ -189,10 +194,8 @@ func NewWorld(prog *ssa.Program, fset *token.FileSet) *World {
 }
 
 func (w *World) info(fn *ssa.Function) *fnInfo {
-	w.mu.Lock()
-	defer w.mu.Unlock()
-	if fi, ok := w.fnInfos[fn]; ok {
-		return fi
+	if fi, ok := w.fnCache.Load(fn); ok {
+		return fi.(*fnInfo)
 	}
 	fi := &fnInfo{idx: map[ssa.Value]int{}}
 	n := 0
@@ -209,7 +212,19 @@ func (w *World) info(fn *ssa.Function) *fnInfo {
 		}
 	}
 	fi.nreg = n
-	w.fnInfos[fn] = fi
+	fi.name = fn.String()
+	if ext, ok := externals[fi.name]; ok {
+		fi.ext = ext
+	} else if fn.Origin() != nil {
+		if ext, ok := externals[fn.Origin().String()]; ok {
+			fi.ext = ext
+		}
+	}
+	if fi.ext == nil {
+		fi.ext = harnessIntrinsic(fn)
+	}
+	fi.isInit = fn.Name() == "init" && fn.Pkg != nil && fn.Signature.Recv() == nil && fn.Parent() == nil
+	w.fnCache.Store(fn, fi)
 	return fi
 }
 
@@ -357,6 +372,7 @@ func (in *Interp) runInit(pkg *ssa.Package) {
 	}
 	in.initDone[pkg] = true
 	if f := pkg.Func("init"); f != nil {
+		in.initForce = true
 		in.callFunction(f, nil, nil)
 	}
 }
@@ -509,32 +525,26 @@ func (in *Interp) call(fv Value, args []Value) Value {
 }
 
 func (in *Interp) callFunction(fn *ssa.Function, args []Value, env []Value) Value {
-	name := fn.String()
-	if in.Cfg != nil && in.Cfg.Stubs != nil {
+	fi := in.W.info(fn)
+	name := fi.name
+	if in.Cfg != nil && len(in.Cfg.Stubs) > 0 {
 		if ext, ok := in.Cfg.Stubs[name]; ok {
 			in.Notes["stub:"+name]++
 			return ext(in, fn, args)
 		}
 	}
-	if ext, ok := externals[name]; ok {
-		return ext(in, fn, args)
+	if fi.ext != nil {
+		return fi.ext(in, fn, args)
 	}
-	if fn.Origin() != nil {
-		if ext, ok := externals[fn.Origin().String()]; ok {
-			return ext(in, fn, args)
-		}
-	}
-	if h := harnessIntrinsic(fn); h != nil {
-		return h(in, fn, args)
-	}
-	if fn.Name() == "init" && fn.Pkg != nil && fn.Signature.Recv() == nil && fn.Parent() == nil {
-		// package initialiser: only for white-listed packages
-		if !in.W.InitPkgs[fn.Pkg.Pkg.Path()] {
+	if fi.isInit {
+		// package initialiser: only for white-listed packages, and lazily: the
+		// calls an initialiser makes to the initialisers of its imports are
+		// skipped; a package is initialised when one of its variables is first
+		// touched (see global) or when it hosts the harness.
+		if !in.W.InitPkgs[fn.Pkg.Pkg.Path()] || in.inInit > 0 && !in.initForce {
 			return nil
 		}
-		if in.initDone[fn.Pkg] && in.cur != nil && in.cur.fn != fn {
-			// already run (or running)
-		}
+		in.initForce = false
 		in.initDone[fn.Pkg] = true
 		in.inInit++
 		defer func() { in.inInit-- }()
@@ -547,7 +557,6 @@ func (in *Interp) callFunction(fn *ssa.Function, args []Value, env []Value) Valu
 		in.abort(StBudget, "call depth %d exceeded in %s", in.Cfg.MaxDepth, name)
 	}
 	in.FnsSeen[fn]++
-	fi := in.W.info(fn)
 	fr := &frame{in: in, fn: fn, info: fi, regs: make([]Value, fi.nreg), env: env, caller: in.cur}
 	if len(args) != len(fn.Params) {
 		panic(fmt.Sprintf("call %s: %d args for %d params", name, len(args), len(fn.Params)))
